@@ -81,6 +81,10 @@ def unary_templates(level="std"):
     if level == "full":
         T.append(("sel or", lambda cols: {"a", "b"} <= cols,
                   lambda ch, p, cols: ("sel", ch, ("or", ("eq", A, ("lit", p.fresh("k"))), ("gt", B, A)))))
+        T.append(("sel not(p|F)", lambda cols: "a" in cols,
+                  lambda ch, p, cols: ("sel", ch, ("not", ("or", ("gt", A, ("lit", p.fresh("k"))), ("plit", False))))))
+        T.append(("sel p|F", lambda cols: "a" in cols,
+                  lambda ch, p, cols: ("sel", ch, ("or", ("gt", A, ("lit", p.fresh("k"))), ("not", ("plit", True))))))
         T.append(("sel and()", lambda cols: True, lambda ch, p, cols: ("sel", ch, ("and",))))
         T.append(("sel or()", lambda cols: True, lambda ch, p, cols: ("sel", ch, ("or",))))
         T.append(("sel p&false", lambda cols: "a" in cols,
